@@ -14,10 +14,45 @@ PRELUDE = '''#![allow(unused, dead_code)]
 // ---- stubs: the compiled regex is an ARBITRARY predicate on the candidate; for a fixed subject string a candidate prefix or
 // suffix is determined by its byte length, so a table indexed by that length is fully general
 pub mod error { #[derive(Debug, PartialEq)] pub struct Error; }
-pub struct Re { table: u64 }
-impl Re { pub fn is_match(&self, c: &str) -> Result<bool, error::Error> { Ok((self.table >> c.len()) & 1 == 1) } }
+// `to_regex(strict_prefix_match, strict_suffix_match)`: with both anchors the candidate must match as a whole (table bit at its length).
+// With only the start anchored the regex matches a candidate iff SOME prefix of it matches as a whole, and `find` returns one such
+// prefix — which one is the engine's preference order (leftmost-first alternation, greedy / lazy repetition), NOT necessarily the
+// longest: the stub picks any of them.  With only the end anchored, `find` returns the leftmost start (the longest matching suffix).
+// These readings are valid for candidates that are prefixes (resp. suffixes) of the subject, which is how the table is indexed.
+pub struct Re { table: u64, anchor_start: bool, anchor_end: bool }
+pub struct Match { start: usize, end: usize }
+impl Match { pub fn start(&self) -> usize { self.start } pub fn end(&self) -> usize { self.end } }
+impl Re {
+    fn bit(&self, len: usize) -> bool { (self.table >> len) & 1 == 1 }
+    pub fn is_match(&self, c: &str) -> Result<bool, error::Error> {
+        if self.anchor_start && self.anchor_end { return Ok(self.bit(c.len())); }
+        assert!(self.anchor_start || self.anchor_end, "an unanchored regex is not modelled by this stub");
+        let mut k = 0;
+        while k <= c.len() {
+            if c.is_char_boundary(k) && self.bit(if self.anchor_start { k } else { c.len() - k }) { return Ok(true); }
+            k += 1;
+        }
+        Ok(false)
+    }
+    pub fn find(&self, c: &str) -> Result<Option<Match>, error::Error> {
+        assert!(self.anchor_start || self.anchor_end, "an unanchored regex is not modelled by this stub");
+        if !self.is_match(c)? { return Ok(None); }
+        if self.anchor_start && self.anchor_end { return Ok(Some(Match { start: 0, end: c.len() })); }
+        if self.anchor_start {
+            let k: usize = kani::any();
+            kani::assume(k <= c.len() && c.is_char_boundary(k) && self.bit(k));
+            return Ok(Some(Match { start: 0, end: k }));
+        }
+        let mut k = 0;
+        while k <= c.len() {
+            if c.is_char_boundary(k) && self.bit(c.len() - k) { return Ok(Some(Match { start: k, end: c.len() })); }
+            k += 1;
+        }
+        Ok(None)
+    }
+}
 pub struct Pattern { pub table: u64 }
-impl Pattern { pub fn to_regex(&self, _p: bool, _s: bool) -> Result<Re, error::Error> { Ok(Re { table: self.table }) } }
+impl Pattern { pub fn to_regex(&self, p: bool, s: bool) -> Result<Re, error::Error> { Ok(Re { table: self.table, anchor_start: p, anchor_end: s }) } }
 
 // ---- spec, verbatim from the property: "prefix/suffix removal returns the rest of v after deleting a prefix/suffix that
 // matches p and is the shortest (or longest) such, the empty one included"; no match: v unchanged
